@@ -317,7 +317,8 @@ def first_stage_shape(case):
     try:
         if case['kind'] == 'lazy':
             return list(np_oindex(labels(case['shape'], 0, 0), case['keep'], keepdims=True).shape)
-        fulls = [np_oindex(labels(p['shape'], 0, 0), p['keep'], keepdims=True) for p in case['parts']]
+        fulls = [np_transforms([tuple(t) for t in p.get('ts', []) if t[0] != 'map'],
+                               np_oindex(labels(p['shape'], 0, 0), p['keep'], keepdims=True), None) for p in case['parts']]
         ne = [f for f in fulls if f.shape[0]] or fulls[:1]
         if len({f.shape[1:] for f in ne}) != 1:
             return None
@@ -414,6 +415,11 @@ def gen_concat(rng, malformed):
         # indexers of concatenated data sets do: outside the model, judged against numpy only
         pts = [('map', rng.choice([1, 2, -1]), rng.choice([0, 1]), rng.choice([None, 0, 1, 2, 4, 5]))
                for _ in range(rng.randint(1, 2))]
+        if tail and rng.random() < 0.5:
+            # like extract_vis of the v2 / v3 files: the part drops its last dataset axis, so its shape property
+            # differs from its first-stage shape
+            pts.insert(rng.randint(0, len(pts)), ('drop',))
+            index = index[:len(tail)]
         for p in parts:
             p['ts'] = list(pts)
             p['raw'] = False
@@ -644,7 +650,9 @@ def stage1_exists(case):
             np_oindex(labels(case['shape'], 0, 0), case['keep'], keepdims=True)
         else:
             for p in case['parts']:
-                np_oindex(labels(p['shape'], 0, 0), p['keep'], keepdims=True)
+                # a part's result includes its own chain (a dropped axis of length 0 has no element 0)
+                np_transforms([tuple(t) for t in p.get('ts', []) if t[0] != 'map'],
+                              np_oindex(labels(p['shape'], 0, 0), p['keep'], keepdims=True), None)
         return True
     except Exception:
         return False
